@@ -296,6 +296,54 @@ def h_tracer_inputs(ctx, pname, D, P):
     ctx.eq(plain(x3.data), X3, 'input of the second re-evaluation unchanged by the third')
 
 
+def h_constants_kept(ctx, kind, D, P):
+    """arrays / polynomials of the caller that a recorded program only READS (wrapped as constant
+    nodes, or used as plain operands) are never written by a re-evaluation or a sweep -- also
+    when the caller has changed them after recording, or made them read-only"""
+    algopy = symx.load_algopy()
+    X = O.make_input(ctx, O.Arg('utpm', (2,)), 'x', D, P)
+    X2 = O.make_input(ctx, O.Arg('utpm', (2,)), 'z', D, P)
+    Q = O.make_input(ctx, O.Arg('ndarray', (2,)), 'q', D, P)
+    Cn = O.make_input(ctx, O.Arg('ndarray', (2,)), 'c', D, P)
+    CU = O.make_input(ctx, O.Arg('utpm', (2,)), 'cu', D, P)
+    c = mk_utpm(ctx, algopy, CU) if kind == 'polynomial operand' else O.wrap(ctx, algopy, O.Arg('ndarray', (2,)), Cn)
+    if kind == 'read-only wrapped array':
+        if ctx.mode == 'sym':
+            ctx.fact(True, 'read-only flag: decided on the float build')
+            ctx.eq(S.const(0), S.const(0), 'value')
+            return
+        c.flags.writeable = False
+    cg = algopy.CGraph()
+    fx = algopy.Function(mk_utpm(ctx, algopy, X))
+    if kind == 'polynomial operand':
+        fy = algopy.sum(fx * c * fx)
+    else:
+        fy = algopy.sum(algopy.Function(c) * fx * fx)
+    cg.trace_off()
+    cg.independentFunctionList = [fx]
+    cg.dependentFunctionList = [fy]
+    if kind == 'wrapped array, changed after recording':
+        c[...] = O.wrap(ctx, algopy, O.Arg('ndarray', (2,)), Q)
+        want = Q
+    elif kind == 'polynomial operand':
+        want = CU
+    else:
+        want = Cn
+    try:
+        cg.pushforward([mk_utpm(ctx, algopy, X2)])
+        ybar = fy.x.zeros_like()
+        ybar.data[0] = 1.0 if ctx.mode == 'float' else S.const(1)
+        cg.pullback([ybar])
+        cg.pushforward([mk_utpm(ctx, algopy, X)])
+    except Exception as e:
+        if type(e).__name__ in ('Inconclusive', 'PathAbort'):
+            raise
+        ctx.fact(False, 're-evaluation raised %s' % (str(e).strip().splitlines()[-1][:120] if str(e).strip() else type(e).__name__))
+        return
+    got = plain(c.data) if kind == 'polynomial operand' else plain(c)
+    ctx.eq(got, np.asarray(want, dtype=object), 'the caller\'s constant (%s) is what the caller put into it' % kind)
+
+
 def h_two_outputs(ctx, D, P):
     """outputs [y1, y2] with y2 = g(y1): the user's seeds must stay intact"""
     from .c03 import Namespace
@@ -361,6 +409,8 @@ def units(tier, seed):
     for pn in ['x*x', 'x/(1+x*x)', 'exp', 'buffer', 'buffer-overwrite', 'tan(x)*x', 'dot(mat,mat)', 'inv', 'sum', 'x[1:]*x[:-1]']:
         add('tracer inputs and seeds/%s' % pn, 'h_tracer_inputs', pname=pn, D=2, P=2)
     add('tracer two dependent outputs', 'h_two_outputs', D=2, P=2)
+    for kind in ('wrapped array', 'wrapped array, changed after recording', 'polynomial operand', 'read-only wrapped array'):
+        add('constants of the caller untouched by re-evaluation and sweeps/%s' % kind, 'h_constants_kept', kind=kind, D=2, P=2)
     for drv in ('gradient', 'jacobian', 'hessian', 'vec_jac'):
         out.append(Unit('C14/program writing into its independent variable/%s leaves the caller\'s array unchanged' % drv, 'symx.props.c04', 'h_input_kept', {'driver': drv}, {'property': PROP, 'float_tol': 5e-5}))
     # factorisations: the C08 harnesses end with `input unchanged`; here with C- and Fortran-ordered
